@@ -337,6 +337,16 @@ def part_histories(ck, exe, model):
             w = st.split()
             if w[0] == "DUMP":
                 nd += 1
+            elif w[0] == "MOD" and w[2] in ("addrow", "addcol", "rmrow", "rmcol") and 0 < nd < len(ds):
+                pre, post = ds[nd - 1][1], ds[nd][1]
+                if pre.has and pre.loaded and not pre.unsafe and pre.drows is not None and int(pre.d["bstat"]) > -2:
+                    which = "rows" if w[2].endswith("row") else "cols"
+                    if w[2].startswith("add"):
+                        # an addrow may create columns implicitly (and an addcol rows): only the plain case is predicted
+                        if (which == "rows" and post.n == pre.n and post.m == pre.m + 1) or (which == "cols" and post.m == pre.m and post.n == pre.n + 1):
+                            mtxt += post.model_block("%s.%d.rm" % (cid, nd)) + "\nQ rm added %s %s %s\n" % (which, bc.sarg(pre.drows), bc.sarg(pre.dcols))
+                    else:
+                        mtxt += pre.model_block("%s.%d.rm" % (cid, nd)) + "\nQ rm removed1 %s %s %s %s\n" % (which, bc.sarg(pre.drows), bc.sarg(pre.dcols), w[3])
             elif w[0] == "MOD" and w[2] in ("rmrows", "rmcols") and 0 < nd < len(ds):
                 pre = ds[nd - 1][1]
                 if pre.has and pre.loaded and not pre.unsafe and pre.drows is not None and int(pre.d["bstat"]) > -2:
